@@ -146,3 +146,34 @@ def run(ctx, rep):
     must_reach(ctx, rep, 'R08.f', SYS + '::join_consumer_group', CM + '::join_consumer_group')
     must_reach(ctx, rep, 'R08.f', SYS + '::leave_consumer_group_by_client', TOPIC + '::leave_consumer_group')
     must_reach(ctx, rep, 'R08.f', SYS + '::leave_consumer_group_by_client', CM + '::leave_consumer_group')
+
+    # ------------------------------------------------------------ R08.g a disconnect cannot leave a ghost member
+    rep.rule('R08.g', 'a dropped connection always leaves its groups: delete_client removes the client record first and ignores the result, so in leave_consumer_group_by_client the group-side removal must not depend on the client-side bookkeeping (it runs first)', floor=2, analysis='A2 ordering')
+    lb = ctx.fn_body(SYS + '::leave_consumer_group_by_client')
+    tl = [c for c in lb.calls if c.name == TOPIC + '::leave_consumer_group']
+    cl = [c for c in lb.calls if c.name == CM + '::leave_consumer_group']
+    if not tl or not cl:
+        rep.anchor_lost('R08.g', 'Topic::leave_consumer_group / ClientManager::leave_consumer_group in leave_consumer_group_by_client')
+    else:
+        ok = lb.dominates(tl[0].bb, cl[0].bb) and tl[0].bb != cl[0].bb
+        rep.ob('R08.g', SYS + '::leave_consumer_group_by_client', 'group-side removal first', ok, tl[0].where(),
+               'Topic::leave_consumer_group runs before the fallible ClientManager::leave_consumer_group' if ok else
+               'ClientManager::leave_consumer_group (ClientNotFound after delete_client removed the record) can abort the function before Topic::leave_consumer_group ran: the dead client stays a member and keeps its partitions')
+        db = ctx.fn_body(SYS + '::delete_client')
+        dc = [c for c in db.calls if c.name == CM + '::delete_client']
+        lv = [c for c in db.calls if c.name == SYS + '::leave_consumer_group_by_client']
+        ok2 = bool(dc and lv)
+        rep.ob('R08.g', SYS + '::delete_client', 'disconnect leaves every group of the client', ok2, lv[0].where() if lv else None,
+               None if ok2 else 'delete_client no longer leaves the groups of the removed client')
+
+    # ------------------------------------------------------------ R08.h a group knows how many partitions its topic has, also after a restart
+    rep.rule('R08.h', 'a consumer group is created with the number of partitions its topic has, at run time and when restored at start-up (after the partitions were loaded)', floor=2, analysis='A9 call-argument forms')
+    import forms as forms_
+    TS = '<server::streaming::topics::storage::FileTopicStorage as server::streaming::storage::TopicStorage>::load'
+    forms_.check_call_args(ctx, rep, 'R08.h', {
+        TS: {'ConsumerGroup::new': ['re:^topic\\.topic_id, .*\\.id, .*\\.name, Topic::get_partitions_count\\(topic\\)$']},
+        TOPIC + '::create_consumer_group': {'ConsumerGroup::new': ['re:^self\\.topic_id, phi\\{.*\\}, name, (HashMap::len\\(self\\.partitions\\)|Topic::get_partitions_count\\(self\\))$']},
+    }, skip_self=False, cd=2)
+    gb = ctx.fn_body(TOPIC + '::get_partitions_count')
+    okc = any(c.name.split('::')[-1] == 'len' and render(gb.expr_operand(c.args[0])).endswith('.partitions') for c in gb.calls)
+    rep.ob('R08.h', TOPIC + '::get_partitions_count', 'counts the partitions map', okc, None, None if okc else 'get_partitions_count no longer returns partitions.len()')
